@@ -863,23 +863,39 @@ def r19_rec_bounds(ctx):
     for n in ("get_is_valid", "__getitem__"):
         f = meth[n]
         rep.anchor(rule, "membership/indexing")
-        loops = [l for l in walk_no_nested(f.node) if isinstance(l, ast.For)]
+        # `for` statements and comprehension clauses alike
+        loops = [(l, l.iter, l.target) for l in walk_no_nested(f.node)
+                 if isinstance(l, ast.For)]
+        for c_ in walk_no_nested(f.node):
+            for g_ in getattr(c_, "generators", ()):
+                loops.append((c_, g_.iter, g_.target))
         ok_loop = False
         loopvar = None
-        for l in loops:
-            it = l.iter
+        the_loop = None
+        self_iters = ("%s.__iter__()" % f.self_name, f.self_name,
+                      "iter(%s)" % f.self_name)
+        for l, it, target in loops:
             if isinstance(it, ast.Call) and U(it.func) == "enumerate" and \
                     it.args:
                 it = it.args[0]
-                tv = l.target.elts[1] if isinstance(l.target, ast.Tuple) \
+                tv = target.elts[1] if isinstance(target, ast.Tuple) \
                     else None
             else:
-                tv = l.target
-            if U(it) in ("%s.__iter__()" % f.self_name, f.self_name,
-                         "iter(%s)" % f.self_name):
+                tv = target
+            if U(it) in self_iters:
                 ok_loop = True
                 loopvar = U(tv) if tv is not None else None
                 the_loop = l
+        if not ok_loop and any(
+                isinstance(c_, ast.Call) and U(c_.func) not in (
+                    "isinstance",) and any(U(a) in self_iters
+                                           for a in c_.args)
+                for c_ in walk_no_nested(f.node)):
+            rep.undecided(rule, ctx.fkey(f, None, "iterates-self"), f.loc(),
+                          "%s hands the recurrence's iteration to a helper "
+                          "(islice, list, next ...): which point it returns "
+                          "/ tests is not read by this rule" % n, P13)
+            continue
         rep.check(ok_loop, rule, ctx.fkey(f, None, "iterates-self"), f.loc(),
                   "%s obtains its points from self.__iter__()" % n,
                   "%s does not take its points from iteration of the "
@@ -889,12 +905,38 @@ def r19_rec_bounds(ctx):
         if n == "__getitem__":
             rets = [r for r in walk_no_nested(f.node)
                     if isinstance(r, ast.Return)]
-            rep.check(bool(rets) and all(U(r.value) == loopvar for r in rets),
+            from ..flow import alternatives as _alts
+
+            def is_iterated(e, depth=0):
+                """the iterated point itself, or what next() takes from a
+                generator that yields it"""
+                if U(e) == loopvar and not isinstance(the_loop, ast.For):
+                    return False
+                if U(e) == loopvar:
+                    return True
+                if isinstance(e, ast.Call) and U(e.func) == "next" and \
+                        e.args and isinstance(
+                            e.args[0], ast.GeneratorExp) and \
+                        e.args[0] is the_loop and \
+                        U(e.args[0].elt) == loopvar:
+                    return True
+                if isinstance(e, ast.Name) and depth < 3:
+                    al = _alts(f.node, e.id)
+                    return bool(al) and all(is_iterated(v, depth + 1)
+                                            for v, _ in al)
+                return False
+            rep.check(bool(rets) and all(is_iterated(r.value) for r in rets),
                       rule, ctx.fkey(f, None, "returns-iterated"), f.loc(),
                       "returns the iterated point",
                       "__getitem__ returns %s, not the iterated point" % [
                           U(r.value) for r in rets], P13)
             # index compared with the enumerate counter
+            continue
+        if not isinstance(the_loop, ast.For):
+            rep.undecided(rule, ctx.fkey(f, None, "membership-eq"), f.loc(),
+                          "get_is_valid scans the recurrence in a "
+                          "comprehension: its membership test and early "
+                          "exits are not read by this rule", P13)
             continue
         probe = f.call_params[0]
         # membership: equality with the iterated point
